@@ -97,7 +97,78 @@ def regen(ctx):
     registry_dump.regen_registry()
 
 
+def siblings(ctx):
+    """Several environments made by ONE ModelInstance (what learn/solve/eval do) used in an interleaved way: each must keep
+    satisfying the statement with respect to its OWN hidden game and its OWN history."""
+    from incomplete_cooperative.run.model import ModelInstance
+    rng = ctx.rng
+    for _ in range(6 if ctx.quick else 60):
+        n = rng.choice([3, 3, 4])
+        klass = rng.choice(["sa", "sam"])
+        comp = rng.choice(["superadditive", "superadditive_cached"]) if klass == "sa" else rng.choice(["sam_apx_1", "sam_apx_10"])
+        gen = rng.choice([g for g in (campaign.SA_GENS if klass == "sa" else campaign.SAM_GENS)
+                          if g not in ("factory_cheerleader_next",)])
+        gap = rng.choice(list(GAP_FUNCTIONS.keys()))
+        seed = rng.randrange(2 ** 31)
+        mi = ModelInstance(number_of_players=n, game_class=comp, game_generator=gen, gap_function=gap, seed=seed,
+                           run_steps_limit=rng.choice([None, None, 3]))
+        envs = [mi.get_env() for _ in range(rng.choice([2, 2, 3]))]
+        chosen = [None] * len(envs)          # None = not reset yet
+        trace = []
+        init_ids = games.minimal_ids(n)
+        bad = None
+        for _ in range(14):
+            j = rng.randrange(len(envs))
+            env = envs[j]
+            expl = [c.id for c in env.explorable_coalitions]
+            if chosen[j] is None or rng.random() < 0.15:
+                env.reset()
+                chosen[j] = []
+                trace.append((j, "reset"))
+            else:
+                free = [a for a in range(len(expl)) if expl[a] not in chosen[j]]
+                if chosen[j] and (rng.random() < 0.3 or not free):
+                    cid = rng.choice(chosen[j])
+                    env.unstep(expl.index(cid))
+                    chosen[j].remove(cid)
+                    trace.append((j, "unstep", expl.index(cid)))
+                elif free and not (mi.run_steps_limit and len(chosen[j]) >= mi.run_steps_limit):
+                    a = rng.choice(free)
+                    try:
+                        env.step(a)
+                    except AssertionError as e:
+                        bad = (j, [("step raised AssertionError on a valid action", a, str(e)[:80])])
+                        trace.append((j, "step", a))
+                        break
+                    chosen[j].append(expl[a])
+                    trace.append((j, "step", a))
+                else:
+                    continue
+            ctx.evaluations += 1
+            ctx.count("sibling_env_calls", trace[-1][1])
+            for jj, e2 in enumerate(envs):          # EVERY environment is re-examined after every call
+                if chosen[jj] is None:
+                    continue
+                hidden = [float(x) for x in e2.full_game.get_values()]
+                fails = envlib.oracle_env(e2, chosen[jj], hidden, n, init_ids, True)
+                if fails:
+                    bad = (jj, fails)
+                    break
+            if bad:
+                break
+        if bad:
+            ctx.violation(f"environments made by one ModelInstance.get_env() interfere: after the interleaved calls {trace} environment "
+                          f"{bad[0]} no longer satisfies the statement for its own hidden game and history: {bad[1][:3]}",
+                          {"ModelInstance": {"number_of_players": n, "game_class": comp, "game_generator": gen, "gap_function": gap,
+                                             "seed": seed, "run_steps_limit": mi.run_steps_limit},
+                           "environments": len(envs), "calls (env index, call, action)": [list(t) for t in trace],
+                           "failing_environment": bad[0], "failures": str(bad[1][:5])})
+            return
+        ctx.nontrivial.add(("siblings", n, comp, gen, seed))
+
+
 def run(ctx, proof):
+    siblings(ctx)
     rng = ctx.rng
     gaps = list(GAP_FUNCTIONS.keys())
     sa_comps = ["superadditive", "superadditive_cached"]
